@@ -3,7 +3,9 @@
    Model: Model/Paths.v (tied to cotengra/core.py and pathfinders/path_basic.py by
    harness/props/c10.py). *)
 From Coq Require Import Lia.
-From Ctg Require Import Base Net Paths BaseFacts PathsFacts.
+From Coq Require Import Permutation.
+From Ctg Require Import Base Net Paths BaseFacts PathsFacts PathsRoundtrip.
+From Ctg Require ExecOrderFacts.
 
 (* key fact behind linear <-> ssa: on a strictly increasing id list the real binary search
    bisect_left returns the exact position of a present id, so `bisect_left(ids, ids.pop(c))`
@@ -53,18 +55,60 @@ Theorem C10_covers_checker_sound : forall t trav, covers_b t trav = true ->
 Proof. exact covers_b_sound. Qed.
 Print Assumptions C10_covers_checker_sound.
 
-(* get_path_roundtrip / get_ssa_path_roundtrip: PARTIAL -- certified per run by the checkers
-   roundtrip_lin_b / roundtrip_ssa_b (the model's from_path applied to the REAL path gives a
-   single tree with the same set of intermediates), not proved for all trees *)
-Theorem C10_roundtrip_lin_checker_partial : forall N t path, roundtrip_lin_b N t path = true ->
+(* get_path_roundtrip / get_ssa_path_roundtrip.  For every tree t whose leaves are distinct
+   and are 0..N-1 (full_leaves), and EVERY admissible order trav of its internal nodes
+   (ok_order: each internal node at most once, only nodes of t, every internal child strictly
+   earlier; plus trav is a permutation of the internal nodes), rebuilding a tree from the
+   emitted path yields ONE tree t' equal to t up to the left/right order of children (sim;
+   contract_nodes_pair re-decides left/right), and therefore with the same multiset of
+   intermediates (sorted leaf sets).  The pairs of the emitted path are passed as 2-element
+   steps (pl). *)
+Theorem C10_get_ssa_path_roundtrip : forall N t trav,
+  full_leaves N t -> ok_order t trav -> Permutation trav (post_sub t) ->
+  exists t', from_ssa_path N (map pl (get_ssa_path N trav)) = Some [t'] /\ sim t t' /\
+             Permutation (map node_set (post_sub t)) (map node_set (post_sub t')).
+Proof. exact get_ssa_path_roundtrip. Qed.
+Print Assumptions C10_get_ssa_path_roundtrip.
+
+Theorem C10_get_path_roundtrip : forall N t trav,
+  full_leaves N t -> ok_order t trav -> Permutation trav (post_sub t) ->
+  exists t', from_path N (map pl (get_path N trav)) = Some [t'] /\ sim t t' /\
+             Permutation (map node_set (post_sub t)) (map node_set (post_sub t')).
+Proof. exact get_path_roundtrip. Qed.
+Print Assumptions C10_get_path_roundtrip.
+
+(* instances: the dfs order ... *)
+Theorem C10_get_path_roundtrip_dfs : forall N t, full_leaves N t ->
+  exists t', from_path N (map pl (get_path N (post_sub t))) = Some [t'] /\ sim t t' /\
+             Permutation (map node_set (post_sub t)) (map node_set (post_sub t')).
+Proof. exact get_path_roundtrip_dfs. Qed.
+Print Assumptions C10_get_path_roundtrip_dfs.
+
+Theorem C10_get_ssa_path_roundtrip_dfs : forall N t, full_leaves N t ->
+  exists t', from_ssa_path N (map pl (get_ssa_path N (post_sub t))) = Some [t'] /\ sim t t' /\
+             Permutation (map node_set (post_sub t)) (map node_set (post_sub t')).
+Proof. exact get_ssa_path_roundtrip_dfs. Qed.
+Print Assumptions C10_get_ssa_path_roundtrip_dfs.
+
+(* ... and every order that is valid in the sense of C01's ExecOrderFacts.valid_order *)
+Theorem C10_roundtrips_valid_order : forall N t order, full_leaves N t -> ExecOrderFacts.valid_order t order ->
+  (exists t', from_path N (map pl (get_path N (map snd order))) = Some [t'] /\ sim t t' /\
+             Permutation (map node_set (post_sub t)) (map node_set (post_sub t'))) /\
+  (exists t', from_ssa_path N (map pl (get_ssa_path N (map snd order))) = Some [t'] /\ sim t t' /\
+             Permutation (map node_set (post_sub t)) (map node_set (post_sub t'))).
+Proof. exact roundtrips_valid_order. Qed.
+Print Assumptions C10_roundtrips_valid_order.
+
+(* the per-run checkers stay as a cross-check between the model and the real paths *)
+Theorem C10_roundtrip_lin_checker_sound : forall N t path, roundtrip_lin_b N t path = true ->
   exists t', from_path N path = Some [t'] /\ same_nodes t t' = true.
 Proof. exact roundtrip_lin_b_sound. Qed.
-Print Assumptions C10_roundtrip_lin_checker_partial.
+Print Assumptions C10_roundtrip_lin_checker_sound.
 
-Theorem C10_roundtrip_ssa_checker_partial : forall N t path, roundtrip_ssa_b N t path = true ->
+Theorem C10_roundtrip_ssa_checker_sound : forall N t path, roundtrip_ssa_b N t path = true ->
   exists t', from_ssa_path N path = Some [t'] /\ same_nodes t t' = true.
 Proof. exact roundtrip_ssa_b_sound. Qed.
-Print Assumptions C10_roundtrip_ssa_checker_partial.
+Print Assumptions C10_roundtrip_ssa_checker_sound.
 
 (* one conversion step is inverted exactly, for ALL strictly increasing id lists and all
    strictly descending in-range position lists (= sorted(con, reverse=True) of distinct valid
